@@ -122,6 +122,54 @@ def local_value(fn: FuncInfo, name: str) -> list[ast.expr]:
     return [v for _, v in assignments_to(fn.node, name) if v is not None]
 
 
+class _Subst(ast.NodeTransformer):
+    def __init__(self, env: dict[str, ast.expr]) -> None:
+        self.env = env
+
+    def visit_Name(self, node: ast.Name) -> ast.AST:
+        if isinstance(node.ctx, ast.Load) and node.id in self.env:
+            import copy
+
+            return copy.deepcopy(self.env[node.id])
+        return node
+
+
+def canon(fn: FuncInfo, expr: ast.AST | None, *, depth: int = 4, limit: int = 24) -> set[str]:
+    """Flow-insensitive copy propagation: every text `expr` can stand for once each plain local of `fn` is replaced by
+    (one of) the expression(s) assigned to it.  Parameters, attributes, calls and loop/with targets stay as written, so
+    the result is independent of how the function names its temporaries.  The unsubstituted text is always included."""
+    from ..astutil import assignments_to
+
+    if expr is None:
+        return set()
+    params = set(params_of(fn.node)) if not isinstance(fn.node, ast.Lambda) else set()
+    out = {unparse(expr, 2000)}
+    frontier: list[ast.AST] = [expr]
+    for _ in range(depth):
+        nxt: list[ast.AST] = []
+        for e in frontier:
+            names = [n.id for n in ast.walk(e) if isinstance(n, ast.Name) and isinstance(n.ctx, ast.Load) and n.id not in params]
+            for name in dict.fromkeys(names):
+                vals = [v for _s, v in assignments_to(fn.node, name) if v is not None]
+                for v in vals[:4]:
+                    import copy
+
+                    new = _Subst({name: v}).visit(copy.deepcopy(e))
+                    t = unparse(new, 2000)
+                    if t not in out and len(out) < limit:
+                        out.add(t)
+                        nxt.append(new)
+        frontier = nxt
+        if not frontier:
+            break
+    return out
+
+
+def defined_by(fn: FuncInfo, pattern: str, var: str = "v", *, into_nested: bool = False) -> list[str]:
+    """Names of the locals bound by an assignment matching `pattern` (which must bind metavariable `$v`)."""
+    return [b[var].id for _n, b in pfind(pattern, fn.node, into_nested=into_nested) if isinstance(b.get(var), ast.Name)]  # type: ignore[union-attr]
+
+
 def is_var(node: ast.AST | None, name: str | None) -> bool:
     return isinstance(node, ast.Name) and name is not None and node.id == name
 
@@ -139,5 +187,5 @@ __all__ = [
     "is_within", "kwarg", "last_attr", "names_in", "norm", "params_of", "stmt_of", "strip_not", "unparse",
     "walk_body", "walk_local", "cfg_of", "find_calls_named", "body_calls", "check_identity_forwarding",
     "loop_var_uses", "guard_tests", "dominated_by_guard", "simple_return_expr", "local_value", "qual",
-    "pfind", "pfirst", "phas", "pmatch", "ptests", "name_of", "same_var", "is_var",
+    "pfind", "pfirst", "phas", "pmatch", "ptests", "name_of", "same_var", "is_var", "canon", "defined_by",
 ]
